@@ -390,6 +390,9 @@ def _is_index_like(b, tb, op, term, depth=0):
             m = parse_callee(term[1])[2]
             if m in ("len", "count", "position", "find"):
                 return True
+            hb = tb.facts.bodies.get(term[1])
+            if hb is not None and depth < 3 and _returns_counter(tb.facts, hb):
+                return True
         if h == "un" and term[1] == "PtrMetadata":
             return True
         if h == "bin" and term[1] in ("Add",) and depth < 3:
@@ -441,9 +444,16 @@ def counter_ok(b, tb, l, seen=()):
     if b.local_ty(l) != "usize":
         return False
     ds = b.defs().get(l, [])
+    if not ds and 1 <= l <= b.argc and l not in getattr(b, "mutated", {}):
+        return _param_index_like(tb.facts, b, l)
     if not ds or l in getattr(b, "mutated", {}):
         return False
     for d in ds:
+        if d[0] == "call" and not place_proj(d[2].get("dest") or {}):
+            # the value a workspace helper returns, when that helper returns a length-bounded counter of its own
+            if _returns_counter(tb.facts, tb.facts.bodies.get(d[2]["callee"])):
+                continue
+            return False
         if d[0] != "assign":
             return False
         rv = d[3]["rv"]
@@ -471,6 +481,112 @@ def counter_ok(b, tb, l, seen=()):
         if m is None or not counter_ok(b, tb, m, seen + (l,)):
             return False
     return True
+
+
+_PIL_BUSY = set()
+_RC_BUSY = set()
+
+
+def _user_call_sites(F, fn):
+    return [(cb, ci, ct) for cb, ci, ct in F.call_sites(lambda cal, fid=fn.id: cal == fid) if user_written(F, cb)]
+
+
+def _param_index_like(F, b, l):
+    """usize parameter #l of a private/workspace function: EVERY workspace call site passes an operand that is itself bounded by the
+    length of a live allocation (an enumerate index, a len, a guarded counter …). No call site ⇒ not proven."""
+    if b.kind not in ("fn", "method"):
+        return False
+    if (b.id, l) in _PIL_BUSY:
+        return True
+    sites = _user_call_sites(F, b)
+    if not sites:
+        return False
+    _PIL_BUSY.add((b.id, l))
+    try:
+        for cb, ci, ct in sites:
+            if len(ct["args"]) < l:
+                return False
+            ctb = Terms(F, cb, inline_depth=0)
+            op = ct["args"][l - 1]
+            term = ctb.operand(op)
+            if any(isinstance(x, tuple) and x and x[0] == "bin" for x in subterms(term)) and named_root(cb, op) is None:
+                return False        # arithmetic on the way in (`f(i + k)`) is not covered by the inductive argument
+            if not _is_index_like(cb, ctb, op, term):
+                return False
+        return True
+    finally:
+        _PIL_BUSY.discard((b.id, l))
+
+
+def _returns_counter(F, h):
+    """workspace fn returning usize whose returned local is a length-bounded counter (counter_ok) in its own body"""
+    if h is None or h.kind not in ("fn", "method") or h.ret != "usize" or not user_written(F, h):
+        return False
+    if h.id in _RC_BUSY:
+        return True         # inductive: assumed while its own proof is in progress (every quantity in the cycle starts bounded and stays so)
+    htb = Terms(F, h, inline_depth=0)
+    ds = h.defs().get(0, [])
+    if not ds:
+        return False
+    _RC_BUSY.add(h.id)
+    try:
+        for d in ds:
+            if d[0] != "assign" or d[3]["rv"]["k"] != "use":
+                return False
+            r = named_root(h, d[3]["rv"]["op"])
+            if r is None or not counter_ok(h, htb, r):
+                return False
+        return True
+    finally:
+        _RC_BUSY.discard(h.id)
+
+
+def scan_summary(F, h):
+    """(slice-param, start-param) if h is a SCAN helper `fn(xs: &[T] | &Vec<T>, start: usize) -> usize` that returns a counter c with
+    c = start initially and otherwise only `c += 1` under a dominating `c < xs.len()` on the same slice: then start ≤ ret, and
+    ret ≤ len(xs) whenever start ≤ len(xs). None otherwise."""
+    if h is None or h.kind not in ("fn", "method") or h.ret != "usize" or not user_written(F, h):
+        return None
+    htb = Terms(F, h, inline_depth=0)
+    ds = h.defs().get(0, [])
+    if len(ds) != 1 or ds[0][0] != "assign" or ds[0][3]["rv"]["k"] != "use":
+        return None
+    c = named_root(h, ds[0][3]["rv"]["op"])
+    if c is None or 1 <= c <= h.argc or c in getattr(h, "mutated", {}):
+        return None
+    start = slc = None
+    for d in h.defs().get(c, []):
+        if d[0] != "assign" or d[3]["rv"]["k"] != "use":
+            return None
+        q = op_place(d[3]["rv"]["op"])
+        if q is None:
+            return None
+        if place_proj(q):
+            # (AddWithOverflow(c, 1)).0 under `c < len(param)` fresh
+            td = h.defs().get(q["l"], [])
+            if not (len(td) == 1 and td[0][0] == "assign" and td[0][3]["rv"]["k"] == "bin" and td[0][3]["rv"]["op"] == "AddWithOverflow"):
+                return None
+            a_, c_ = td[0][3]["rv"]["a"], td[0][3]["rv"]["b"]
+            kc = op_const(c_)
+            if named_root(h, a_) != c or kc is None or kc.get("int") != "1":
+                return None
+            ok = None
+            for k in range(1, h.argc + 1):
+                if _dominated_by_lt_len_fresh(h, htb, d[1], c, ("param", k - 1, h.local_name(k))):
+                    ok = k
+            if ok is None:
+                return None
+            if slc is not None and slc != ok:
+                return None
+            slc = ok
+        else:
+            m = named_root(h, d[3]["rv"]["op"])
+            if m is None or not (1 <= m <= h.argc) or h.local_ty(m) != "usize" or (start is not None and start != m):
+                return None
+            start = m
+    if start is None or slc is None:
+        return None
+    return slc, start
 
 
 def _iteration_counter(b, op):
@@ -776,6 +892,9 @@ def _discharge_assert(F, b, tb, i, t, msg, ops):
             why = _window_element(F, b, cont, kt[1])
             if why:
                 return why
+        why = _callers_guard_index(F, b, tb, idx, _len_container(tb.operand(t["ops"][0])))
+        if why:
+            return why
         return None
     if msg.startswith("Overflow(Add)") or msg.startswith("Overflow(Sub)"):
         tys = [_op_ty(b, o) for o in t["ops"]]
@@ -823,6 +942,73 @@ def _discharge_assert(F, b, tb, i, t, msg, ops):
 
 
 _WIDTH = {"u8": 8, "i8": 8, "u16": 16, "i16": 16, "u32": 32, "i32": 32, "u64": 64, "i64": 64, "u128": 128, "i128": 128}
+
+
+def _callers_guard_index(F, b, tb, idx_op, cont):
+    """`xs[i]` where i and xs are both PARAMETERS of a workspace function: every workspace call site passes (X, j) with the call
+    dominated by `j < len(X)` on the same X, j not written in between"""
+    if b.kind not in ("fn", "method") or not (isinstance(cont, tuple) and cont and cont[0] == "param"):
+        return None
+    pi = named_root(b, idx_op)
+    if pi is None or not (1 <= pi <= b.argc) or pi in getattr(b, "mutated", {}) or b.defs().get(pi):
+        return None
+    qi = cont[1] + 1
+    sites = _user_call_sites(F, b)
+    if not sites:
+        return None
+    for cb, ci, ct in sites:
+        if len(ct["args"]) < max(pi, qi):
+            return None
+        ctb = Terms(F, cb, inline_depth=0)
+        j = named_root(cb, ct["args"][pi - 1])
+        if j is None:
+            return None
+        x = _strip_refs(ctb.operand(ct["args"][qi - 1]))
+        if not _dominated_by_lt_len_fresh(cb, ctb, ci, j, x):
+            return None
+    return f"index and slice are parameters: each of the {len(sites)} workspace call sites passes an index tested `< len` of the slice it passes"
+
+
+def _scan_helper_range(F, b, tb, site_bb, range_op, cont_term):
+    """`c[s..e]` with `e = scan(c, s)` where scan is a scan helper (scan_summary): s ≤ e ≤ len(c), given s < len(c) at the call (dominating
+    guard on the same container) and s not written between the call and the slice"""
+    rl = _range_locals(b, range_op)
+    if rl is None or rl[0] is None or rl[1] is None:
+        return None
+    s_, e_, _ = rl
+    ds = b.defs().get(e_, [])
+    if len(ds) != 1:
+        return None
+    d = ds[0]
+    call_t = None
+    if d[0] == "call":
+        call_t, call_bb = d[2], d[1]
+    elif d[0] == "assign" and d[3]["rv"]["k"] == "use":
+        q = op_place(d[3]["rv"]["op"])
+        qd = b.defs().get(q["l"], []) if q is not None and not place_proj(q) else []
+        if len(qd) == 1 and qd[0][0] == "call":
+            call_t, call_bb = qd[0][2], qd[0][1]
+    if call_t is None:
+        return None
+    h = F.bodies.get(call_t["callee"])
+    sm = scan_summary(F, h)
+    if sm is None:
+        return None
+    slc, start = sm
+    if len(call_t["args"]) < max(slc, start) or named_root(b, call_t["args"][start - 1]) != s_:
+        return None
+    x = _strip_refs(tb.operand(call_t["args"][slc - 1]))
+    if not _same_container(x, cont_term):
+        return None
+    if not _dominated_by_lt_len_fresh(b, tb, call_bb, s_, x):
+        return None
+    if not b.dominates(call_bb, site_bb):
+        return None
+    for w in b.defs().get(s_, []):
+        # a write of s between the call and the slice would break s ≤ e
+        if w[1] != call_bb and site_bb in b.reach_from(w[1], removed_blocks=(call_bb,)) and w[1] in b.reach_from(call_bb) and w[1] != site_bb:
+            return None
+    return f"scan slice s..e with e = {h.short}(c, s): the helper starts at s and only steps under `< len(c)`, and s < len(c) at the call"
 
 
 def _window_element(F, b, cont, n):
@@ -1139,6 +1325,9 @@ def _scan_range(b, tb, site_bb, range_op):
 def _discharge_index(F, b, tb, i, t, cont, ity, idx):
     if "Range<usize>" in ity and len(t["args"]) > 1:
         why = _scan_range(b, tb, i, t["args"][1])
+        if why:
+            return why
+        why = _scan_helper_range(F, b, tb, i, t["args"][1], _strip_refs(tb.operand(t["args"][0])))
         if why:
             return why
     if cont.endswith("str") and "Range" in ity:
